@@ -68,14 +68,20 @@ def build_task(cfg):
     if kind == "workflow":
         return t["workflow"](x=cfg.get("x", 3), side=cfg["side"], delay=cfg.get("delay", 0.0))
     if kind == "shell":
-        # the body is /bin/sh: appends a line to the side file, prints the value
-        Sh = t["shell"].define("sh -c <script:str>")
-        script = "echo $$ >> %s; %secho %d" % (cfg["side"], "sleep %s; " % cfg["delay"] if cfg.get("delay") else "",
-                                                2 * cfg.get("x", 3) + 1)
-        if cfg.get("fail"):
-            script += "; exit 3"
-        return Sh(script=script)
+        # the body is /bin/sh running a script the parent wrote (one line per execution into the side file)
+        Sh = t["shell"].define("sh <script:str>")
+        return Sh(script=cfg["script"])
     raise ValueError(kind)
+
+
+def write_shell_body(path, cfg):
+    with open(path, "w") as f:
+        f.write("echo $$ >> %s\n" % cfg["side"])
+        if cfg.get("delay"):
+            f.write("sleep %s\n" % cfg["delay"])
+        f.write("echo %d\n" % (2 * cfg.get("x", 3) + 1))
+        if cfg.get("fail"):
+            f.write("exit 3\n")
 
 
 def expected_value(cfg):
@@ -213,6 +219,12 @@ class Gate:
 
     def drive(self, choose, deadline):
         """Run until every child has exited. Returns False on timeout (children killed by caller)."""
+        # start only when every child is parked at its first checkpoint (interpreter start-up differs a lot)
+        while time.time() < deadline:
+            cnt = self.lines()
+            if all(cnt[c.idx] > 0 or c.poll() is not None for c in self.children):
+                break
+            time.sleep(0.02)
         while time.time() < deadline:
             alive = [c for c in self.children if c.poll() is None]
             if not alive:
@@ -382,6 +394,9 @@ def run_scenario(sc, workroot=None):
         if base.get("flaky"):
             base["flaky"] = os.path.join(wd, "flaky")
             open(base["flaky"], "w").close()
+        if base.get("task") == "shell":
+            base["script"] = os.path.join(wd, "body.sh")
+            write_shell_body(base["script"], base)
         timeout = sc.get("timeout", 90)
         if sc.get("pre"):
             c = Child(99, wd, cache, [dict(base)], [], os.path.join(wd, "trace_pre"))
@@ -391,6 +406,7 @@ def run_scenario(sc, workroot=None):
         infos = []
         idx = 0
         hang = False
+        runs_stage = []
         for st_no, stage in enumerate(sc["stages"]):
             chs = []
             gate_dir = os.path.join(wd, "gate%d" % st_no)
@@ -438,6 +454,7 @@ def run_scenario(sc, workroot=None):
                                        crashed=(rc == 137), rc=rc)
                 infos.append(dict(idx=c.idx, rc=rc, report=rep, hooks=hooks, pid=c.pid,
                                   tail=(c.output or "")[-400:] if rc not in (0, 137) else ""))
+            runs_stage.append(len(open(side).read().split()))
         tr = resolve_keys(read_trace(trace))
         main_keys = [k for pid, _, l, k in tr if l == "job.lock_acquired" and pid in children]
         keys = []
@@ -460,7 +477,14 @@ def run_scenario(sc, workroot=None):
                 labels.setdefault(children[pid]["idx"], []).append(l)
         res = dict(name=sc.get("name", ""), key=key, keys=keys, events=ev, cache=g, children=infos, hang=hang,
                    runs=len(runs_all), labels=labels, wall=round(time.time() - t0, 2),
-                   n_trace=len(tr))
+                   n_trace=len(tr), runs_stage=runs_stage)
+        if sc.get("collect_files") and key != "-":
+            res["files"] = {}
+            for fn in ("_result.pklz", "_job.pklz", "_error.pklz"):
+                fp = os.path.join(cache, key, fn)
+                if os.path.exists(fp):
+                    with open(fp, "rb") as f:
+                        res["files"][fn] = f.read()
         return res
     finally:
         shutil.rmtree(wd, ignore_errors=True)
